@@ -22,6 +22,44 @@ build() { # $1 = output, extra flags follow
   return $rc
 }
 
+# Coverage-guided fuzzing of the front end (C10 thorough): execution-count budget, not time.
+fuzz_c10() {
+  local execs="${VERIF_FUZZ_EXECS:-1000000}" bad=0 total=0
+  local log="$VERIF/work/fuzz.$$.log"
+  for target in FuzzUnit FuzzTerm FuzzPipeline FuzzFactFile; do
+    (cd "$VERIF/harness" && go test -tags verif -run '^$' -fuzz "^${target}\$" -fuzztime="${execs}x" ./fuzz) >"$log" 2>&1
+    local rc=$?
+    local n=$(grep -o 'execs: [0-9]*' "$log" | tail -1 | grep -o '[0-9]*')
+    total=$((total + ${n:-0}))
+    echo "fuzz $target: exit $rc, executions ${n:-0}"
+    if [ $rc -ne 0 ]; then
+      local crasher=$(grep -o 'testdata/fuzz/[A-Za-z]*/[0-9a-f]*' "$log" | head -1)
+      if [ -n "$crasher" ] && [ -f "$VERIF/harness/fuzz/$crasher" ]; then
+        local dst="$VERIF/replays/C10-fuzz-$target-$(basename "$crasher")"
+        cp "$VERIF/harness/fuzz/$crasher" "$dst"
+        rm -f "$VERIF/harness/fuzz/$crasher"
+        echo "VIOLATION property=C10 replay=$dst"
+        grep -m1 -A12 -E 'panic:|fatal error' "$log" | sed 's/^/  /'
+        bad=1
+      else
+        echo "fuzz $target failed without a crasher (harness problem):"; tail -20 "$log"; rm -f "$log"; return 2
+      fi
+    fi
+  done
+  rm -f "$log"
+  python3 - "$VERIF/evidence/C10.json" "$total" "$bad" <<'PY'
+import json,sys
+p,total,bad=sys.argv[1],int(sys.argv[2]),int(sys.argv[3])
+e=json.load(open(p))
+e['coverage']['fuzz_executions']=total
+e['coverage']['fuzz_targets']=['FuzzUnit','FuzzTerm','FuzzPipeline','FuzzFactFile']
+e['coverage']['evaluations']+=total
+if bad: e['violations']=e.get('violations',0)+1
+json.dump(e,open(p,'w'),indent=1)
+PY
+  return $bad
+}
+
 cmd="${1:-}"
 case "$cmd" in
   build)
@@ -39,6 +77,13 @@ case "$cmd" in
       exec "$BIN/vcheck-race" -verif "$VERIF" -prop "$cmd" -tier "$tier" -seed "$SEED" "$@"
     fi
     build "$BIN/vcheck" || exit 2
+    if [ "$cmd" = "C10" ] && [ "$tier" = "thorough" ]; then
+      "$BIN/vcheck" -verif "$VERIF" -prop "$cmd" -tier "$tier" -seed "$SEED" "$@"
+      rc=$?
+      [ $rc -eq 2 ] && exit 2
+      fuzz_c10 || rc=1
+      exit $rc
+    fi
     exec "$BIN/vcheck" -verif "$VERIF" -prop "$cmd" -tier "$tier" -seed "$SEED" "$@" ;;
   *)
     echo "usage: run.sh <C01..C20> <quick|thorough> | replay <file> | build" >&2; exit 2 ;;
